@@ -153,8 +153,9 @@ func (r *recorder) take() string {
 }
 
 type apiMsg struct {
-	t       int
-	payload []byte
+	t        int
+	payload  []byte
+	implicit bool // closed implicitly by the next NextWriter / WriteMessage: the library swallows the result
 }
 
 type openMsg struct {
@@ -410,7 +411,7 @@ func implicitSent(wc *wConn) {
 	if (om.t == 8 || om.t == 9 || om.t == 10) && len(om.all) > 125 {
 		return
 	}
-	wc.sent = append(wc.sent, apiMsg{om.t, om.all})
+	wc.sent = append(wc.sent, apiMsg{om.t, om.all, true})
 }
 
 func (g *wGen) markResult(wc *wConn, err error) {
@@ -564,7 +565,7 @@ func (g *wGen) opClose(wc *wConn, h int) {
 		env += " full=" + hx(om.full())
 	}
 	if err == nil && !om.closed {
-		wc.sent = append(wc.sent, apiMsg{om.t, om.all})
+		wc.sent = append(wc.sent, apiMsg{t: om.t, payload: om.all})
 	}
 	om.closed = true
 	if om == wc.cur {
@@ -597,7 +598,7 @@ func (g *wGen) opWriteMessage(wc *wConn, t int, p []byte) {
 		env += " full=" + hx(om.full())
 	}
 	if err == nil {
-		wc.sent = append(wc.sent, apiMsg{t, p})
+		wc.sent = append(wc.sent, apiMsg{t: t, payload: p})
 	} else if !wc.errSeen && !wc.faulted && !wc.closeOnWire() {
 		// C01 "accepted": a data message of any size and a control message of at most 125 bytes are valid requests
 		if t == 1 || t == 2 {
@@ -630,6 +631,10 @@ func (g *wGen) opWriteJSON(wc *wConn) {
 	default:
 		v = []int{r.Intn(10), r.Intn(10)}
 	}
+	unenc := r.Intn(8) == 0
+	if unenc {
+		v = make(chan int) // encoding/json rejects it: WriteJSON opens a writer, writes nothing and closes it
+	}
 	var eb bytes.Buffer
 	json.NewEncoder(&eb).Encode(v)
 	enc := eb.Bytes()
@@ -653,9 +658,22 @@ func (g *wGen) opWriteJSON(wc *wConn) {
 		env += " full=" + hx(om.full())
 	}
 	if err == nil {
-		wc.sent = append(wc.sent, apiMsg{1, enc})
+		wc.sent = append(wc.sent, apiMsg{t: 1, payload: enc})
+	}
+	if _, isJSON := err.(*json.UnsupportedTypeError); unenc && isJSON {
+		// the writer was opened and closed around the failed encoding: an empty text message went out
+		// (the result of that Close is not reported)
+		wc.sent = append(wc.sent, apiMsg{t: 1, payload: nil, implicit: true})
+		g.sc.emit(fmt.Sprintf("wjf %s%s", wc.id, env), g.line("err json"))
+		g.sc.tag("op:wjf")
+		return
 	}
 	g.markResult(wc, err)
+	if unenc {
+		g.sc.emit(fmt.Sprintf("wjf %s%s", wc.id, env), g.line(resStr(err)))
+		g.sc.tag("op:wjf")
+		return
+	}
 	g.sc.emit(fmt.Sprintf("wj %s %s%s", wc.id, hx(enc), env), g.line(resStr(err)))
 	g.sc.tag("op:wj")
 }
@@ -709,7 +727,7 @@ func (g *wGen) opWriteControl(wc *wConn, t int, p []byte, d int) {
 	err := wc.c.WriteControl(t, p, tokTime(d))
 	g.failStop(wc, fb, err, "WriteControl")
 	if err == nil {
-		wc.sent = append(wc.sent, apiMsg{t, p})
+		wc.sent = append(wc.sent, apiMsg{t: t, payload: p})
 		if t == 8 {
 			wc.closeSnt = true
 		}
@@ -808,7 +826,7 @@ func (g *wGen) opWritePrepared(wc *wConn, pm *wPM) {
 	}
 	pm.cached[key] = true
 	if err == nil {
-		wc.sent = append(wc.sent, apiMsg{pm.t, pm.data})
+		wc.sent = append(wc.sent, apiMsg{t: pm.t, payload: pm.data})
 	}
 	// C19: the framing variant matches this connection's role and compression settings at the time of
 	// the call (judged on the bytes handed to the transport by this call)
@@ -961,6 +979,19 @@ func (g *wGen) step() {
 		}
 		g.sc.emit(fmt.Sprintf("scl %s %d", wc.id, l), resStr(err))
 	case x < 95:
+		if r.Intn(6) == 0 {
+			// Conn.Close (closing the network connection) at any moment: the write side's bookkeeping —
+			// the open writer, the pooled buffer it holds — is untouched
+			err := wc.c.Close()
+			evs := g.log.take()
+			res := resStr(err)
+			if len(evs) > 0 {
+				res += " | " + joinEvs(evs)
+			}
+			g.sc.emit("cc "+wc.id, res)
+			g.sc.tag("op:cc")
+			return
+		}
 		g.opWriteJSON(wc)
 	default:
 		if !g.opt.prepared {
@@ -1069,11 +1100,43 @@ func writerOracle(sc *scenario, wc *wConn) {
 			break
 		}
 	}
+	msgs, ctls := rfcMessages(frames)
 	if wc.faulted || wc.errSeen {
+		// with faults or refused requests in the program the wire need not hold every message, but a
+		// message the API reported as sent (nil from Close / WriteMessage / WriteJSON / WritePreparedMessage
+		// / WriteControl) is on the wire, complete and intact, in the order of the reports (C09 / C10:
+		// "never reported as sent")
+		wi, ci := 0, 0
+		for k, m := range wc.sent {
+			if m.implicit {
+				continue
+			}
+			found := false
+			if m.t == 1 || m.t == 2 {
+				for ; wi < len(msgs); wi++ {
+					if msgs[wi].complete && msgs[wi].inflateErr == "" && msgs[wi].op == m.t && bytes.Equal(msgs[wi].payload, m.payload) {
+						found = true
+						wi++
+						break
+					}
+				}
+			} else {
+				for ; ci < len(ctls); ci++ {
+					if ctls[ci].op == m.t && bytes.Equal(ctls[ci].payload, m.payload) {
+						found = true
+						ci++
+						break
+					}
+				}
+			}
+			if !found {
+				sc.violate("%s: API message %d (type %d, %d bytes) was reported as sent (nil error) but is not on the wire as a complete message", wc.id, k, m.t, len(m.payload))
+				break
+			}
+		}
 		return
 	}
 	// fault-free, error-free program: wire messages = API messages in order
-	msgs, ctls := rfcMessages(frames)
 	if n := len(msgs); n > 0 && !msgs[n-1].complete {
 		// an unfinished message at the end of the wire is legitimate only while its writer is still open,
 		// and what is on the wire must be a prefix of what was written to it
